@@ -75,7 +75,9 @@ def opsC08 : List (String × Handler) := [
     | _ => "bad-op"),
   ("h.vmstack", fun
     | [nf, l] => match nf.toNat?, l.toNat? with
-      | some nf, some l => cls (vmStackUnmarshal nf l)
+      | some nf, some l => match vmStackFieldSources nf l with
+        | .ok src => "ok " ++ (if src.isEmpty then "-" else ",".intercalate (src.map toString))
+        | o => cls o
       | _, _ => "bad-op"
     | _ => "bad-op"),
   ("h.tuple", fun
